@@ -105,3 +105,38 @@ Example C19_nonvacuous :
   map val (fft 8 (map F [1;2;3;4;5;6;7;8;9;10;11]%Z)) =
   map (fun w => val (peval (map F [1;2;3;4;5;6;7;8;9;10;11]%Z) w)) (powers (domain_gen 3) 8).
 Proof. vm_compute. reflexivity. Qed.
+
+(* forward and inverse transforms are mutually inverse *)
+From PlonkV Require Import Alg.FFTInverse.
+Theorem C19_fft_rec_inverse : forall (PR : PrimeR) k w a,
+  length a = Nat.pow 2 k -> w <> fzero ->
+  ((0 < k)%nat -> fpow_nat w (Nat.pow 2 (k - 1)) = fopp fone) ->
+  fft_rec k (finv w) (fft_rec k w a) = map (fmul (F (2 ^ Z.of_nat k))) a.
+Proof. exact @fft_rec_inverse. Qed.
+Check C19_fft_rec_inverse : forall (PR : PrimeR) k w a,
+  length a = Nat.pow 2 k -> w <> fzero ->
+  ((0 < k)%nat -> fpow_nat w (Nat.pow 2 (k - 1)) = fopp fone) ->
+  fft_rec k (finv w) (fft_rec k w a) = map (fmul (F (2 ^ Z.of_nat k))) a.
+Print Assumptions C19_fft_rec_inverse.
+
+Theorem C19_ifft_fft : forall (PR : PrimeR) num_coeffs p,
+  (domain_log num_coeffs <= 32)%nat ->
+  let k := domain_log num_coeffs in
+  ifft num_coeffs (fft num_coeffs p) = fold_mod (Nat.pow 2 k) p.
+Proof. exact @ifft_fft. Qed.
+Check C19_ifft_fft : forall (PR : PrimeR) num_coeffs p,
+  (domain_log num_coeffs <= 32)%nat ->
+  let k := domain_log num_coeffs in
+  ifft num_coeffs (fft num_coeffs p) = fold_mod (Nat.pow 2 k) p.
+Print Assumptions C19_ifft_fft.
+
+Theorem C19_fft_ifft : forall (PR : PrimeR) num_coeffs ev,
+  (domain_log num_coeffs <= 32)%nat ->
+  let k := domain_log num_coeffs in
+  fft num_coeffs (ifft num_coeffs ev) = resize (Nat.pow 2 k) ev.
+Proof. exact @fft_ifft. Qed.
+Check C19_fft_ifft : forall (PR : PrimeR) num_coeffs ev,
+  (domain_log num_coeffs <= 32)%nat ->
+  let k := domain_log num_coeffs in
+  fft num_coeffs (ifft num_coeffs ev) = resize (Nat.pow 2 k) ev.
+Print Assumptions C19_fft_ifft.
